@@ -201,7 +201,7 @@ def parse_module(text):
 
 LINKAGE = {'private','internal','linkonce_odr','weak_odr','external','dso_local','unnamed_addr',
            'local_unnamed_addr','hidden','common','weak','linkonce','available_externally','constant','global',
-           'noundef','nonnull','signext','zeroext','noalias','thread_local'}
+           'noundef','nonnull','signext','zeroext','noalias','thread_local','appending'}
 
 def parse_global(m, s):
     p = P(lex(s))
